@@ -1,6 +1,7 @@
 package checks
 
 import (
+	"reflect"
 	"context"
 	"fmt"
 	"runtime"
@@ -113,6 +114,27 @@ func BranchOptions(i int) []gtree.Option {
 		gtree.WithBranchFormatLastNode(b.LastConn, b.LastCont),
 	}
 }
+
+// GuardOpts returns the same options in a slice that has spare capacity, the way a caller holds
+// them who keeps all its options in one slice and passes a prefix of it (opts[:n]...). The two
+// elements beyond the passed length belong to the caller: intact() tells whether they still hold
+// what the caller put there once the call is over.
+func GuardOpts(o []gtree.Option) (passed []gtree.Option, intact func() bool) {
+	backing := make([]gtree.Option, len(o)+2)
+	copy(backing, o)
+	backing[len(o)], backing[len(o)+1] = guardSentinel, guardSentinel
+	want := reflect.ValueOf(gtree.Option(guardSentinel)).Pointer()
+	return backing[:len(o)], func() bool {
+		for _, e := range backing[len(o):] {
+			if e == nil || reflect.ValueOf(e).Pointer() != want {
+				return false
+			}
+		}
+		return true
+	}
+}
+
+var guardSentinel = gtree.WithEncodeTOML() // never applied: it sits beyond the passed length
 
 // Options builds the gtree options of a case. ctx is used for massive; target "" = default.
 func Options(cs *Case, ctx context.Context, target string) []gtree.Option {
